@@ -46,6 +46,9 @@ def stepC03 (c : CS) (l : Line) : CS :=
                  mism c s!"SPEC[restart-failed] restart from stored state: MainInit={l.nat "maininit"} Startup rc={l.nat "startup_rc"}" else c
       let c := if l.nat "maininit" = 0 ∧ l.nat "startup_rc" = 0 ∧ l.nat "equal" ≠ 1 then
                  mism c s!"SPEC[persistent-entities-lost] after a power cut (variant {l.nat "variant"}) the persistent entities differ from what the TPM had acknowledged" else c
+      -- the high-water mark of deleted counters is persistent state too: a new counter after the cut must not start lower
+      let c := if l.nat "ctr_live" ≠ 0 ∧ l.nat "ctr_restart" ≠ 0 ∧ l.nat "ctr_restart" < l.nat "ctr_live" then
+                 mism c s!"SPEC[counter-highwater-lost] a new NV counter starts at {l.nat "ctr_restart"} after the power cut but at {l.nat "ctr_live"} before it" else c
       c
   | _ => c
 
@@ -68,6 +71,21 @@ def stepC05 (c : CS) (l : Line) : CS :=
       let c := if !da ∧ l.nat "batt_eq" ≠ 1 then
                  mism c s!"SPEC[error-left-trace] command {l.str "cc"} answered rc={l.nat "rc"} (mutation kind {l.nat "kind"}) but the observable state changed" else c
       c
+  | "ftwin" =>
+      let c := ev c
+      let c := branch c s!"ftwin/{l.str "what"}/rc={l.nat "rc"}/skipped={l.nat "skipped"}"
+      if l.nat "skipped" = 1 then c else
+      if l.nat "equal" ≠ 1 then
+        mism c s!"SPEC[error-left-trace] after the failed command ({l.str "what"}, cc={l.str "cc"}, rc={l.nat "rc"}) the TPM answers a continuation differently from a TPM that never saw it: command #{l.str "first_diff"} cc={l.str "cc1"} rc {l.str "rc1"} vs {l.str "rc2"}"
+      else c
+  | "nvfull" =>
+      let c := ev c
+      let c := branch c s!"nvfull/rc={l.nat "rc"}"
+      if l.nat "rc" ≠ 0 ∧ l.str "transient_ok" = "0" then
+        mism c s!"SPEC[error-left-trace] EvictControl failing with rc={l.nat "rc"} (NV full after {l.nat "persisted"} objects) unloaded the caller's transient object"
+      else if l.nat "rc" ≠ 0 ∧ l.nat "batt_eq" ≠ 1 then
+        mism c s!"SPEC[error-left-trace] EvictControl failing with rc={l.nat "rc"} (NV full after {l.nat "persisted"} objects) changed the observable state"
+      else c
   | "cancel" =>
       let c := ev c
       let k := l.str "k"
